@@ -174,6 +174,7 @@ Proof.
     repeat (destruct Ha as [<-|Ha]; [repeat (destruct Hb as [<-|Hb]; [reflexivity|]); destruct Hb|]). destruct Ha.
   - intros r H. cbn in H. repeat (destruct H as [<-|H]; [cbn; lia|]). destruct H.
 Qed.
+Print Assumptions C20_truncated_middle_volume.
 
 (* non-vacuity: two volumes of two slices with distinct keys and different scale factors,
    recorded volume-major and slice-major-reversed; both loads succeed with the same result *)
